@@ -6,7 +6,7 @@ set -u
 N=$1; WT=$2; OUT=$3
 LOG=$OUT/verify.log; : > $LOG
 cd $WT || exit 2
-git stash -q 2>>$LOG || true
+git checkout -q -- . 2>>$LOG   # pristine tree (worktrees share one stash stack: never use git stash here)
 build_and_test() {
   rm -rf _build
   cmake -G Ninja -B _build -DCMAKE_BUILD_TYPE=RelWithDebInfo . >/dev/null 2>&1 && cmake --build _build >>$LOG 2>&1 || return 1
@@ -19,7 +19,7 @@ run_demo() {
 }
 build_and_test; P_TESTS=$?
 P_DEMO=$(run_demo pristine)
-git stash pop -q 2>>$LOG || git apply $OUT/patch.diff
+git apply $OUT/patch.diff 2>>$LOG || exit 2
 build_and_test; M_TESTS=$?
 M_DEMO=$(run_demo patched)
 rm -rf _build $OUT/demo_bin
